@@ -31,14 +31,16 @@ def gen(ctx, n):
             if model == 'custom' and mode == 'ew':
                 continue
             cases.append({'model': model, 'mode': mode, 'seed': r.randint(0, 10**5), 'inner': r.choice(['sgd', 'adam']), 'sigma': r.choice([0.0, 0.5]),
-                          'reduction': r.choice(['mean', 'sum']), 'k': r.randint(0, 2), 'pending': r.choice([None, None, 'f', 'fb']) if mode != 'ew' else None})
+                          'reduction': r.choice(['mean', 'sum']), 'k': r.randint(0, 2), 'pending': r.choice([None, None, 'f', 'fb']) if mode != 'ew' else None,
+                          'disable_first': r.random() < 0.3})
     for _ in range(n):
         model = r.choice(models)
         mode = r.choice(['hooks', 'functorch', 'ew', 'ghost'])
         if model == 'custom' and mode == 'ew':
             mode = 'hooks'
         cases.append({'model': model, 'mode': mode, 'seed': r.randint(0, 10**5), 'inner': r.choice(['sgd', 'adam']), 'sigma': r.choice([0.0, 0.5, 1.0]),
-                      'reduction': r.choice(['mean', 'sum']), 'k': r.randint(0, 3), 'pending': r.choice([None, 'f', 'fb']) if mode != 'ew' else None})
+                      'reduction': r.choice(['mean', 'sum']), 'k': r.randint(0, 3), 'pending': r.choice([None, 'f', 'fb']) if mode != 'ew' else None,
+                      'disable_first': r.random() < 0.3})
     return cases
 
 
